@@ -40,6 +40,10 @@ pub enum Ty {
     Bool,
     Str,
     Char,
+    /// darling::util::Flag
+    Flag,
+    /// darling::util::PathList
+    PathList,
     /// a built-in or library conversion the model does not predict: such a run is judged for
     /// totality only (C07), never for which errors come back
     Any(&'static str),
@@ -250,6 +254,16 @@ pub fn meta_receivers() -> BTreeMap<&'static str, RecvDesc> {
             f("sv", opt(Ty::Spanned(Box::new(Ty::PV(1205))))),
             f("bv", opt(bx(Ty::PE(1206)))),
             f("ovr", opt(Ty::OverridePV(1207))),
+        ]),
+    ));
+    add(recv(
+        "S13",
+        Struct(vec![
+            f("fl", Ty::Flag),
+            f("pl", opt(Ty::PathList)),
+            f("pl2", Ty::PathList),
+            f("sb", opt(Ty::Spanned(Box::new(Ty::Bool)))),
+            f("p", opt(pm(1301 + 10))),
         ]),
     ));
     add(recv("N1", Struct(vec![f("inner", r("S1")), f("opt", opt(r("S1"))), f("d", r("S5")).dflt()])));
@@ -600,4 +614,78 @@ pub fn elem_receivers() -> BTreeMap<&'static str, ElemDesc> {
         ..elem("AT2", Attributes, vec!["a"], vec![f("e", opt(r("E1")))])
     });
     m
+}
+
+
+/// Every seam site id that occurs in the corpus (for the "sites never hit" evidence).
+pub fn all_sites() -> std::collections::BTreeSet<u32> {
+    fn ty_sites(t: &Ty, out: &mut std::collections::BTreeSet<u32>) {
+        match t {
+            Ty::PM(s) | Ty::PH(s) | Ty::PV(s) | Ty::PE(s) | Ty::OverridePH(s) | Ty::OverridePV(s) => {
+                out.insert(*s);
+            }
+            Ty::Opt(b) | Ty::Boxed(b) | Ty::DResult(b) | Ty::MResult(b) | Ty::Spanned(b) | Ty::WithOrig(b) => ty_sites(b, out),
+            Ty::Map { val, .. } => ty_sites(val, out),
+            _ => {}
+        }
+    }
+    fn fields_sites(fs: &[FieldDesc], out: &mut std::collections::BTreeSet<u32>) {
+        for f in fs {
+            ty_sites(&f.ty, out);
+        }
+    }
+    let mut out = std::collections::BTreeSet::new();
+    for d in recvs().values() {
+        match &d.shape {
+            Shape::Struct(fs) => fields_sites(fs, &mut out),
+            Shape::Newtype(t) | Shape::Alias(t) => ty_sites(t, &mut out),
+            Shape::Enum(vs) => {
+                for v in vs {
+                    match &v.kind {
+                        VariantKind::Newtype(t) => ty_sites(t, &mut out),
+                        VariantKind::Struct { fields, .. } => fields_sites(fields, &mut out),
+                        VariantKind::Unit => {}
+                    }
+                }
+            }
+            Shape::Unit => {}
+        }
+        if let Some((_, s)) = d.container_post {
+            out.insert(s);
+        }
+        if let Some(ContainerDefault::Trait(s)) | Some(ContainerDefault::Fn(s)) = d.container_default {
+            out.insert(s);
+        }
+        if let Some(s) = d.from_word {
+            out.insert(s);
+        }
+    }
+    for d in elems().values() {
+        fields_sites(&d.fields, &mut out);
+        if let Some(s) = d.from_ident {
+            out.insert(s);
+        }
+        if let Some(AttrsField::With(s)) = d.attrs_field {
+            out.insert(s);
+        }
+        if let Some(GenericsDesc::Probe(s)) = d.generics {
+            out.insert(s);
+        }
+        if let Some(DataDesc::With(s)) = d.data {
+            out.insert(s);
+        }
+        if let Some(DataDesc::Data { field: BodyLeaf::Probe(s), .. }) = d.data {
+            out.insert(s);
+        }
+        if let Some(BodyLeaf::Probe(s)) = d.variant_fields {
+            out.insert(s);
+        }
+        if let Some((_, s)) = d.container_post {
+            out.insert(s);
+        }
+        if let Some(ContainerDefault::Trait(s)) | Some(ContainerDefault::Fn(s)) = d.container_default {
+            out.insert(s);
+        }
+    }
+    out
 }
